@@ -155,6 +155,8 @@ fn rr(tl: Point, w: u32, h: u32, r: [u32; 8]) -> RoundedRectangle {
 c05_g!(c05_q_g_circles, 40, [Circle::new(A0, 0), Circle::new(A1, 1), Circle::new(A0, 2), Circle::new(A1, 3), Circle::new(A0, 4), Circle::new(A1, 5), Circle::new(A0, 6)]);
 c05_g!(c05_q_g_ellipses, 40, [Ellipse::new(A0, Size::new(0, 3)), Ellipse::new(A1, Size::new(1, 4)), Ellipse::new(A0, Size::new(2, 14)), Ellipse::new(A1, Size::new(9, 2)), Ellipse::new(A0, Size::new(5, 2)), Ellipse::new(A1, Size::new(3, 6)), Ellipse::new(A0, Size::new(6, 4))]);
 c05_g!(c05_q_g_rrects, 32, [rr(A1, 6, 5, [2, 2, 0, 0, 3, 2, 1, 2]), rr(A0, 4, 6, [9, 9, 9, 9, 9, 9, 9, 9]), rr(A1, 3, 0, [1, 1, 1, 1, 1, 1, 1, 1])]);
+// narrow shapes with tall corners: the first and last bounding-box rows hold no pixel (finding F-19)
+c05_g!(c05_q_g_rrects_thin, 20, [rr(A0, 2, 8, [1, 4, 1, 4, 1, 4, 1, 4]), rr(A1, 8, 2, [4, 1, 4, 1, 4, 1, 4, 1])]);
 // flat corners (rx >= 4 at ry = 1 and transposed): already the first corner row is shortened
 c05_g!(c05_q_g_rrects_flat_a, 52, [rr(A0, 12, 4, [5, 1, 4, 1, 5, 1, 4, 1])]);
 c05_g!(c05_q_g_rrects_flat_b, 52, [rr(A1, 4, 11, [1, 5, 1, 4, 1, 5, 1, 4])]);
